@@ -55,35 +55,56 @@ Proof. exact out_of_range_refuted. Qed.
 Print Assumptions C12_out_of_range_refuted.
 Check C12_out_of_range_refuted : exists p, im_plan p = false /\ decode_plan (encode_plan p) = None.
 
-(* ---- writer / reader agreement ---- *)
-(* full-strength statement: forall np baseline w, written_of np baseline = Some w ->
-   validate_migration_plan w = Ok tt.  It is FALSE of the faithful model (D6): *)
-Theorem C12_revision_unloadable_refuted :
-  exists p1 np baseline w,
-    plan_next d6_t1 [] = Ok p1 /\ plan_next d6_t2 [p1] = Ok np /\ replay [p1] = Ok baseline /\
-    written_of np baseline = Some w /\
-    known_C12_nullable_default np baseline = true /\
-    validate_migration_plan w = Err (VMissingFillWith "user" "name").
-Proof. exact revision_unloadable_refuted. Qed.
-Print Assumptions C12_revision_unloadable_refuted.
-Check C12_revision_unloadable_refuted :
-  exists p1 np baseline w,
-    plan_next d6_t1 [] = Ok p1 /\ plan_next d6_t2 [p1] = Ok np /\ replay [p1] = Ok baseline /\
-    written_of np baseline = Some w /\
-    known_C12_nullable_default np baseline = true /\
-    validate_migration_plan w = Err (VMissingFillWith "user" "name").
+(* ---- writer / reader agreement (after the repair of D6, /repo 446c8b4) ---- *)
+(* for every plan handed to `revision` (so for every plan produced by plan_next), with whatever fill
+   values it already carries, the loader never lacks a fill value in what revision wrote *)
+Theorem C12_revision_no_missing_fill : forall np baseline w,
+  written_of np baseline = Some w ->
+  forall t c, validate_migration_plan w <> Err (VMissingFillWith t c).
+Proof. exact revision_no_missing_fill. Qed.
+Print Assumptions C12_revision_no_missing_fill.
+Check C12_revision_no_missing_fill : forall np baseline w,
+  written_of np baseline = Some w ->
+  forall t c, validate_migration_plan w <> Err (VMissingFillWith t c).
 
-(* proved form: outside the known class the loader never lacks a fill value in what revision wrote *)
-Theorem C12_revision_output_loadable_partial : forall np baseline w,
+(* exactly what can still happen: accepted, or rejected because an enum column's default / fill value
+   is not one of its labels *)
+Theorem C12_revision_output_loadable : forall np baseline w,
   written_of np baseline = Some w ->
-  known_C12_nullable_default np baseline = false ->
-  forall t c, validate_migration_plan w <> Err (VMissingFillWith t c).
-Proof. exact revision_output_loadable_partial. Qed.
-Print Assumptions C12_revision_output_loadable_partial.
-Check C12_revision_output_loadable_partial : forall np baseline w,
+  validate_migration_plan w = Ok tt \/ exists t c v, validate_migration_plan w = Err (VInvalidEnumDefault t c v).
+Proof. exact revision_output_loadable. Qed.
+Print Assumptions C12_revision_output_loadable.
+Check C12_revision_output_loadable : forall np baseline w,
   written_of np baseline = Some w ->
-  known_C12_nullable_default np baseline = false ->
-  forall t c, validate_migration_plan w <> Err (VMissingFillWith t c).
+  validate_migration_plan w = Ok tt \/ exists t c v, validate_migration_plan w = Err (VInvalidEnumDefault t c v).
+
+(* the former D6 witness now loads: the column default is written as the fill value *)
+Theorem C12_d6_witness_now_loads :
+  exists p1 np baseline w,
+    plan_next d6_t1 [] = Ok p1 /\ plan_next d6_t2 [p1] = Ok np /\ replay [p1] = Ok baseline /\
+    written_of np baseline = Some w /\
+    p_actions w = [ModifyColumnNullable "user" "name" false (Some "'x'")] /\
+    validate_migration_plan w = Ok tt.
+Proof. exact d6_witness_now_loads. Qed.
+Print Assumptions C12_d6_witness_now_loads.
+Check C12_d6_witness_now_loads :
+  exists p1 np baseline w,
+    plan_next d6_t1 [] = Ok p1 /\ plan_next d6_t2 [p1] = Ok np /\ replay [p1] = Ok baseline /\
+    written_of np baseline = Some w /\
+    p_actions w = [ModifyColumnNullable "user" "name" false (Some "'x'")] /\
+    validate_migration_plan w = Ok tt.
+
+(* "always accepted" is false: a user-chosen fill value for an enum column is written unchecked *)
+Theorem C12_revision_enum_fill_refuted :
+  exists np baseline w,
+    written_of np baseline = Some w /\
+    validate_migration_plan w = Err (VInvalidEnumDefault "t" "status" "bogus").
+Proof. exact revision_enum_fill_refuted. Qed.
+Print Assumptions C12_revision_enum_fill_refuted.
+Check C12_revision_enum_fill_refuted :
+  exists np baseline w,
+    written_of np baseline = Some w /\
+    validate_migration_plan w = Err (VInvalidEnumDefault "t" "status" "bogus").
 
 (* ---- non-vacuity ---- *)
 Example C12_nonvacuous_plan :
@@ -97,12 +118,12 @@ Example C12_nonvacuous_plan :
 Proof. split; vm_compute; reflexivity. Qed.
 
 Example C12_nonvacuous_revision :
-  exists np baseline w, written_of np baseline = Some w /\ known_C12_nullable_default np baseline = false
+  exists np baseline w, written_of np baseline = Some w
                         /\ List.length (p_actions w) = 2%nat /\ validate_migration_plan w = Ok tt.
 Proof.
   exists (mkPlan "" None None 2
             [AddColumn "user" (mkCol "age" (TSimple Integer) false None None None None None None) None;
              ModifyColumnNullable "user" "name" false None]).
   exists [mkTable "user" None [mkCol "name" (TSimple Text) true None None None None None None] []].
-  eexists. split; [vm_compute; reflexivity|]. split; [reflexivity|]. split; vm_compute; reflexivity.
+  eexists. split; [vm_compute; reflexivity|]. split; vm_compute; reflexivity.
 Qed.
